@@ -601,6 +601,7 @@ def ieee_range(rec):
     max-shift that is taken over the wrong axis; with and without missing-value padding"""
     import chi as real
     cases = [(cls, outlier, pad) for cls in ('GaussianKDEFilter', 'LogNormalKDEFilter', 'GaussianMixtureFilter') for outlier in (None, 'mild', 'extreme') for pad in (False, True)]
+    cases += [(cls, offset, pad) for cls in ('GaussianFilter', 'GaussianKDEFilter', 'GaussianMixtureFilter') for offset in (float(2 ** 20), float(2 ** 24)) for pad in (False, True)]
 
     def one(case):
         cls, outlier, pad = case
@@ -614,14 +615,34 @@ def ieee_range(rec):
         if pad:
             y = np.concatenate([y, np.full((1, 1, 3), np.nan)], axis=0)
             y[0, 0, 0] = np.nan
+        if isinstance(outlier, float):
+            # simulated and measured values on a large common offset (the documented estimators -- mean, ddof=1 variance -- are well conditioned
+            # there; a variance computed from raw moments cancels catastrophically): value and sensitivities against the documented estimator
+            x = outlier + 0.5 * rng.normal(size=(8, 2, 3))
+            y = outlier + 0.5 * rng.normal(size=(4, 2, 3))
+            if pad:
+                y = np.concatenate([y, np.full((1, 2, 3), np.nan)], axis=0)
+                y[0, 0, 0] = np.nan
         want = reference_value(cls, y, x)
-        got = float(make_filter(real, cls, y).compute_log_likelihood(x))
+        flt = make_filter(real, cls, y)
+        got = float(flt.compute_log_likelihood(x))
         if not (np.isfinite(got) and abs(got - want) <= 1e-6 * max(1.0, abs(want))):
             return '%s, %s outlier, %s missing values: log-likelihood %r, the documented estimator gives %r' % (cls, outlier or 'no', 'with' if pad else 'without', got, want)
+        if isinstance(outlier, float):
+            sc, gr = flt.compute_sensitivities(x)
+            gr = np.asarray(gr, dtype=float)
+            h = 1e-3
+            for idx in [(0, 0, 0), (3, 1, 2), (7, 0, 1)]:
+                xp, xm = x.copy(), x.copy()
+                xp[idx] += h
+                xm[idx] -= h
+                fd = (reference_value(cls, y, xp) - reference_value(cls, y, xm)) / (xp[idx] - xm[idx])
+                if not (abs(float(sc) - want) <= 1e-6 * max(1.0, abs(want)) and abs(gr[idx] - fd) <= 1e-4 * max(1.0, abs(fd))):
+                    return '%s, values around %.3g, %s missing values: score %r / sensitivity %s = %r; the documented estimator gives %r / %r' % (cls, outlier, 'with' if pad else 'without', float(sc), idx, float(gr[idx]), want, fd)
         return None
     rec.native_check('ieee.range', ['chi._population_filters.logsumexp', 'chi._population_filters.GaussianKDEFilter.compute_log_likelihood', 'chi._population_filters.LogNormalKDEFilter.compute_log_likelihood',
                                     'chi._population_filters.GaussianMixtureFilter.compute_log_likelihood'], cases, one,
-                     '3 kernel / mixture filters x {no, mild, extreme (hundreds of nats) outlier} x {complete, missing-value padded}: value against the documented estimator evaluated in log space (scipy logsumexp); '
+                     '3 kernel / mixture filters x {no, mild, extreme (hundreds of nats) outlier} x {complete, missing-value padded}; Gaussian, Gaussian-KDE and mixture filters at values around 2^20 and 2^24 (spread 0.5) with sensitivities against central differences of the reference: value against the documented estimator evaluated in log space (scipy logsumexp); '
                      'distinct by (filter, outlier, padding)', exhaustive=True)
 
 
